@@ -6,7 +6,7 @@ import time
 import z3
 
 from mirsym.exec import Exec, State, Event
-from mirsym.values import Struct, Rec, Enum, Ref, Ptr, EngineError, subst
+from mirsym.values import Struct, Rec, Enum, Ref, Ptr, Opaque, UNIT, EngineError, subst
 from mirsym.wmm import REL, ACQ
 from . import common
 from .common import Check, Prover, mval, log
@@ -294,7 +294,9 @@ class Task:
         self.name, self.sc, self.cons, self.kind, self.on_sat, self.sample = name, sc, cons, kind, on_sat, sample
 
 
-def run_tasks(ck, tasks, seed, timeout_ms=300000):
+def run_tasks(ck, tasks, seed, timeout_ms=None):
+    if timeout_ms is None:
+        timeout_ms = 300000 if ck.tier == 'quick' else 1500000
     """decide all queries in parallel (one z3 process each); for a satisfiable claim recompute the model in-process and
     hand it to the confirmation procedure.  returns number of confirmed violations"""
     from .seqlock_model import parallel_solve
@@ -443,7 +445,9 @@ def check_c03(tier, seed):
             tasks.append(Task('N=%d,M=%d: call %d returns an older record than the previous result (or than the cache)' % (N, M, i + 1), sc, fin + [o['ok'], key(o['rec'][0]) < prev], on_sat=mk()))
             prev = z3.If(o['ok'], key(o['rec'][0]), prev)
         gfin = sc.enc.wvalue(sc.wgen_loc)
-        exc = (outs[-1]['sgen_out'] == gfin)
+        # documented exception: a cached publication OLDER than the window whose generation coincides with the live one (the reader slept
+        # through a multiple of 32767 publications). A record cached inside the window cannot coincide (N << 32767): if it does, it was mislabelled.
+        exc = z3.And(outs[-1]['sgen_out'] == gfin, outs[-1]['cache_out'][0] == T_OLDER)
 
         def mkb(sc=sc, allc=allc, q=q, N=N, ctag=ctag, sgen=sgen):
             def on_sat(m):
@@ -650,7 +654,16 @@ def check_c18(tier, seed):
         if out.startswith('timeout') or out.startswith('hang'):
             ck.violation('no-ranking-function', 'snapshot() did not return within the time limit against a writer stalled mid-update: ' + out, {'cmd': 'snapshot_stall', 'native': out})
         else:
-            ck.inconclusive.append('no ranking function found for the retry loop, and the native stalled-writer run returned (%s)' % out)
+            # second native scenario of the quantifier: a writer that completes an update before every re-check of the reader
+            rp = common.Replay('release')
+            out2 = rp.ask('snapshot_busy 2500000')
+            rp.close()
+            f = dict(x.split('=', 1) for x in out2.split()[1:] if '=' in x) if out2.startswith('ok') else {}
+            if f and int(f.get('writer_updates', 0)) >= 2500000:
+                ck.violation('no-ranking-function', 'against a continuously updating writer one snapshot() call performed %s generation loads and returned only because the writer stopped after %s updates: its work is not bounded'
+                             % (f.get('generation_loads'), f.get('writer_updates')), {'cmd': 'snapshot_busy 2500000', 'native': out2})
+            else:
+                ck.inconclusive.append('no ranking function found for the retry loop, and both native scenarios returned (stalled writer: %s; busy writer: %s)' % (out, out2))
         ck.absorb(pr)
         return ck.finish()
     l, var = rank
@@ -730,6 +743,52 @@ def header_validity(P, seed):
     return dict(vars=(m0, m1, seg, ver, gen), pc=pc, val=val, dom=dom, side=list(ex.side), ex=ex)
 
 
+def usable_clause(ck, P, pr, seed):
+    from .segment_files import OpenModel, MAGIC0, MAGIC1
+    prog = P.prog
+    om = OpenModel(prog)
+    fn = prog.find1('is_usable_segment', self_ty='ShmWriter')
+    env = [(r'(^|::)Path::as_os_str$', lambda ex, st, c, a, f: Opaque('osstr')), (r'OsStrExt>::as_bytes$', lambda ex, st, c, a, f: Opaque('bytes')),
+           (r'(^|::)CString::new(::<.*>)?$', lambda ex, st, c, a, f: Enum(0, {'Ok': Struct([Opaque('cstring')])})),
+           (r'(^|::)CString::as_c_str$', lambda ex, st, c, a, f: Opaque('cstr'))]
+    try:
+        outs = om.run(fn=fn, args=[Opaque('path')], extra_env=env)
+    except EngineError as e:
+        ck.inconclusive.append('ShmWriter::is_usable_segment not executable by engine M: %s' % e)
+        return
+    ex = om.ex
+    pr.add(om.domain()); pr.add(ex.side)
+    after_crash = z3.And(om.open_ok, om.nread == 16, om.mmap_ok, om.m0 == MAGIC0, om.m1 == MAGIC1, om.seg == P.hdr_size + P.rec_size, om.ver == 1, om.gen != 0)
+    if hasattr(om, 'rec'):
+        r = om.rec
+        pr.add(r.f[5].disc() >= 0, r.f[5].disc() <= 2, r.f[3] >= 0, r.f[3] < 2 ** 32, r.f[4] >= 0, r.f[4] < 2 ** 32)
+
+    def confirm(m):
+        import struct
+        gen = mval(m, om.gen)
+        hdr = struct.pack('<IIIHH', MAGIC0, MAGIC1, 72, 1, gen)
+        rec = struct.pack('<qqqqqIIiI', 11, 22, 33, 44, 55, 66, 0, 1, 0)
+        rp = common.Replay('debug')
+        out = rp.ask('recreate ' + (hdr + rec).hex())
+        rp.close()
+        f = dict(x.split('=', 1) for x in out.split()[1:] if '=' in x) if out.startswith('ok') else {}
+        if f.get('bytes') and f['bytes'] != (hdr + rec).hex():
+            ck.violation('valid-segment-wiped', 'ShmWriter::new over a valid published segment with generation %d (%s) does not take it over in place: the file afterwards is %s...' % (
+                gen, 'odd: the previous daemon died mid-update' if gen % 2 else 'even', f['bytes'][:48]), {'cmd': 'recreate ' + (hdr + rec).hex(), 'native': out})
+            return 'wiped'
+        return None
+    for i, o in enumerate(outs):
+        if o.kind != 'return':
+            continue
+        v = o.value
+        if 'Ok' in v.p and 'Err' in v.p:
+            okc = v.disc() == 0
+        else:
+            okc = z3.BoolVal('Ok' in v.p)
+        pr.prove_cegar('is_usable_segment path %d: a published segment in any state a crash can leave (magic, size, version 1, generation != 0, any record) is usable, hence not wiped' % i,
+                       z3.And(o.state.pcond(), after_crash), okc, confirm, lambda m: [], hints=[[om.gen == 3], [om.gen == 2]])
+
+
 def check_c04(tier, seed):
     ck = Check('C04', tier, seed)
     P = Programs()
@@ -783,7 +842,7 @@ def check_c04(tier, seed):
             tasks.append(Task('%s: call %d goes back in publication order' % (lab, i + 1), sc, fin + [o['ok'], key(rec[0]) < prev], on_sat=mk()))
             prev = z3.If(o['ok'], key(rec[0]), prev)
         gfin = sc.enc.wvalue(sc.wgen_loc)
-        exc = outs[-1]['sgen_out'] == gfin
+        exc = z3.And(outs[-1]['sgen_out'] == gfin, outs[-1]['cache_out'][0] == T_OLDER)
 
         def mkb(sc=sc, allc=allc, q=q, N=N, ctag=ctag, sgen=sgen):
             def on_sat(m):
@@ -826,6 +885,9 @@ def check_c04(tier, seed):
     s = z3.Solver(); s.add(P.reader_new_side); s.add(P.reader_new_segsize == P.hdr_size + P.rec_size, z3.Not(P.reader_new_cond))
     r = s.check()
     record(ck, 'ShmReader::new (used by is_usable_segment) accepts a mapping of exactly header+record bytes', r, 0.0, '')
+    # the daemon's own usability test, executed from its MIR (it decides whether the segment is wiped): every segment a crash can
+    # leave behind after at least one publication - any non-zero generation, odd or even, ANY record content - must be kept
+    usable_clause(ck, P, pr, seed)
     # control dependence in ShmWriter::new: wipe is called only when is_usable_segment failed; the version store follows on every success path
     usable, wipe_ok = P.writer_new_vars
     for pc, trace, v in P.writer_new_paths:
